@@ -36,6 +36,12 @@ from ..api.tracepoint.tracepoint_config import LabelExpression, MetricDefinition
 from ..api.tracepoint.trigger import build_trigger, Trigger
 
 
+def __text(value: str) -> str:
+    # text that cannot be encoded (a lone surrogate from a file name or an environment variable that is not valid
+    # UTF-8) is escaped: it would otherwise fail the whole request - every poll, when it is in the resource
+    return value.encode('utf-8', 'backslashreplace').decode('utf-8')
+
+
 def convert_value(value):
     """
     Convert a value from the python type.
@@ -47,7 +53,7 @@ def convert_value(value):
     if isinstance(value, bool):
         return AnyValue(bool_value=value)
     if isinstance(value, str):
-        return AnyValue(string_value=value)
+        return AnyValue(string_value=__text(value))
     if isinstance(value, int):
         if -(2 ** 63) <= value < 2 ** 63:
             return AnyValue(int_value=value)
@@ -67,7 +73,7 @@ def convert_value(value):
 
 
 def __value_as_dict(value):
-    return KeyValueList(values=[KeyValue(key=k, value=convert_value(v)) for k, v in value.items()])
+    return KeyValueList(values=[KeyValue(key=__text(k), value=convert_value(v)) for k, v in value.items()])
 
 
 def __value_as_list(value):
@@ -87,7 +93,7 @@ def convert_resource(resource):
 
 def __convert_attributes(attributes):
     return Resource(dropped_attributes_count=attributes.dropped,
-                    attributes=[KeyValue(key=k, value=convert_value(v)) for k, v in attributes.items()])
+                    attributes=[KeyValue(key=__text(k), value=convert_value(v)) for k, v in attributes.items()])
 
 
 def __convert_static_value(value):
